@@ -2171,7 +2171,25 @@ def _summarise_multi(interp, s, frame, st, lo, hi, item_fn, normal, i, scal_h, p
 # scatter-store nests
 
 
-def scatter_nest_rule(interp, s, frame, st, lo, hi, item_fn):
+def make_scatter_nest_rule(inverse, clause="nest:every-slot-written-by-exactly-one-iteration"):
+    """scatter_nest_rule with a WRITTEN ghost inverse of the store index (part of the contract, taken from the property statement,
+    e.g. row-major: i = p div n1, j = p mod n1).  ``inverse(array_name, idx, ranges, loop_vars) -> [loop-variable terms]`` or
+    ``([terms], [hint facts])`` (or None for an array it does not speak about); idx are the position variables of the array,
+    ranges the [(lo, hi)] of the nest, loop_vars the symbolic loop indices (for hint instances: valid formulas, each re-proved
+    without assumptions, that spare the solver a nonlinear search in obligation (2)).  For every
+    position idx of the region the store can reach (static conjuncts of the store condition, inside the array's shape) two
+    obligations are generated from the REAL store condition cond(iota, idx) and reported under ``clause``:
+      (1) inv(idx) lies in the loop ranges and cond(inv(idx), idx) holds        -- some iteration of the nest writes the slot
+      (2) cond(iota, idx) with iota in the ranges implies iota == inv(idx)      -- no other iteration writes it
+    Given both, the slot is written exactly once, by iteration inv(idx), with a value that does not depend on the array or on
+    loop-carried state (checked as before), so the post-content val(inv(idx), idx) is exact (scatter-store rule: the same rule as the
+    affine / registered-bijection scatter summaries, with the bijection supplied by the contract and checked by (1), (2))."""
+    def rule(interp, s, frame, st, lo, hi, item_fn):
+        return scatter_nest_rule(interp, s, frame, st, lo, hi, item_fn, inverse=inverse, inv_clause=clause)
+    return rule
+
+
+def scatter_nest_rule(interp, s, frame, st, lo, hi, item_fn, inverse=None, inv_clause=None):
     """Rule for a PERFECT nest of >= 2 symbolic range-loops whose innermost body is loop-free and whose only effect is
     a store  A[g(iota)] = e(iota)  (e independent of A and of loop-carried state) — e.g. filling a grid through a
     computed flat index.  The automatic summaries need an affine injective writer; here g may be non-affine and even
@@ -2300,8 +2318,35 @@ def scatter_nest_rule(interp, s, frame, st, lo, hi, item_fn):
             pairs = [(a, sv.znum(b)) for a, b in zip(idz, ix)]
             c = sv.wrap(z3.simplify(z3.substitute(static_c, *pairs)))
             return ite(c, lambda: sv.wrap(G(*([sv.znum(b) for b in ix] + params))), lambda: pre_fn(ix))
-        new_content[sid] = Content("arr", A._memo(fn), pre_heap[sid].meta)
         vname = next((k for k, v in pre_env.items() if isinstance(v, A.Arr) and v.sid == sid), None)
+        inv = inverse(vname, [sv.wrap(x) for x in idz], [(l, h) for _, l, h in loop_vars], [v for v, _, _ in loop_vars]) if inverse is not None else None
+        hints = []
+        if isinstance(inv, tuple):      # (terms, hint facts): every hint is a closed valid formula (an instance of a lemma the contract
+            inv, hints = inv            # proves on fresh variables); it is ALSO emitted as its own obligation, without assumptions
+            hints = [sv.zb(h) if isinstance(h, SV) else h for h in hints]
+        if inv is not None and len(inv) == len(lvz) and not isinstance(val, Cx):
+            inv_z = [sv.znum(t) for t in inv]
+            sub = list(zip(lvz, inv_z))
+            region = z3.And(static_c, *[z3.And(x >= 0, x < sv.znum(dim)) for x, dim in zip(idz, shape)])
+            ranges_at_inv = z3.And(*[z3.And(iz >= z3.substitute(sv.znum(l), *sub), iz < z3.substitute(sv.znum(h), *sub))
+                                     for iz, (_, l, h) in zip(inv_z, loop_vars)])
+            no_lv = [a for a in pre_assumptions if not any(_mentions(a, v) for v in lvz)]
+            g1 = _SideGoal("nest-inverse:slot-is-written-by-iteration-inv(slot)", z3.Implies(region, z3.And(ranges_at_inv, z3.substitute(cond, *sub))),
+                           no_lv, where)
+            g2 = _SideGoal("nest-inverse:no-other-iteration-writes-the-slot", z3.Implies(z3.And(region, cond), z3.And(*[v == iz for v, iz in zip(lvz, inv_z)])),
+                           list(pre_assumptions) + hints, where)
+            hint_goals = [_SideGoal("nest-inverse:hint-is-a-valid-formula", h, [], where) for h in hints]
+            for g in [g1, g2] + hint_goals:
+                g.opts = {}
+                g.clause = inv_clause
+                st.side.append(g)
+            val_t = sv.znum(val)
+
+            def fn(ix, idz=idz, region=region, pre_fn=pre_fn, val_t=val_t, sub=sub):        # noqa: F811  (exact post-content)
+                pairs = [(a, sv.znum(b)) for a, b in zip(idz, ix)]
+                c = sv.wrap(z3.simplify(z3.substitute(region, *pairs)))
+                return ite(c, lambda: sv.wrap(z3.simplify(z3.substitute(z3.substitute(val_t, *sub), *pairs))), lambda: pre_fn(ix))
+        new_content[sid] = Content("arr", A._memo(fn), pre_heap[sid].meta)
         probes.append(dict(sid=sid, array=vname, where=where, cond=cond, val=val, idx=list(idx), shape=tuple(shape),
                            loop_vars=[(v, l, h) for v, l, h in loop_vars], assumptions=list(pre_assumptions),
                            equalities=_index_equalities(cond, idz), depth=len(loops_)))
